@@ -704,6 +704,32 @@ pub fn all_mutations(ty: &str, out: &crate::spec::GenOut) -> Vec<FieldCase> {
             }
         }
     }
+    // the content behind one, two or three further slashes (a delimiter stripped once too often hides
+    // over-long or mis-shaped content)
+    for k in 1..=3usize {
+        v.push((format!("prefix-slashes-{k}"), format!("{}{text}", "/".repeat(k))));
+    }
+    // digits that may be a numeric sub-component set to zero
+    {
+        let bytes = text.as_bytes();
+        let mut i = 0;
+        while i + 1 < bytes.len() {
+            if bytes[i].is_ascii_digit() && bytes[i + 1].is_ascii_digit() {
+                let mut j = i;
+                while j < bytes.len() && bytes[j].is_ascii_digit() {
+                    j += 1;
+                }
+                if j - i <= 3 {
+                    let mut t = text.clone();
+                    t.replace_range(i..j, &"0".repeat(j - i));
+                    v.push((format!("zero-digits-at-{i}"), t));
+                }
+                i = j;
+            } else {
+                i += 1;
+            }
+        }
+    }
     for (n, t) in [
         ("alpha", "XYZ"),
         ("digits", "123"),
